@@ -54,13 +54,54 @@ def unit_switch_sweep(prog):
     return {"raw_unit_switch_calls_anywhere": out}
 
 
+class _Collect:
+    """stand-in for a Run that only collects failed obligations (observations)"""
+
+    def __init__(self):
+        self.items = []
+        self.n = 0
+
+    def obligation(self, rid, construct, ok, key="", message="", loc="", detail=None, sample=None):
+        self.n += 1
+        if not ok:
+            self.items.append({"construct": construct, "loc": loc, "what": message[:220]})
+
+
+def attribute_sweep(prog):
+    col = _Collect()
+    funcs = [f for f in prog.all_functions() if f.cls is not None]
+    apiexist.check_self_attributes(col, "sweep", prog, funcs, "this path")
+    return {"methods": col.n, "undefined_self_attributes": col.items[:200], "count": len(col.items)}
+
+
+def arity_sweep(prog):
+    col = _Collect()
+    apiexist.check_call_arity(col, "sweep", prog, list(prog.all_functions()), "this path")
+    return {"functions_with_resolved_calls": col.n, "calls_with_wrong_arguments": col.items[:200], "count": len(col.items)}
+
+
+def managed_read_sweep(prog):
+    from . import unitflow
+    out = []
+    n = 0
+    for f in prog.all_functions():
+        total, bad = unitflow.typed_unprotected_reads(prog, f)
+        n += total
+        for x in bad:
+            out.append({"function": f.qualname, "read": norm(x), "loc": f.loc(x)})
+    return {"typed_reads": n, "unprotected": out, "count": len(out)}
+
+
 SWEEPS = {
     "C09": [("leaked_loop_variables_package_wide", leaked_loop_sweep)],
     "C10": [("missing_apis_package_wide", api_sweep)],
     "C12": [("missing_apis_package_wide", api_sweep)],
     "C18": [("missing_apis_package_wide", api_sweep)],
     "C11": [("half_sided_transform_idiom_package_wide", hfft_sweep)],
-    "C05": [("raw_unit_switch_calls_package_wide", unit_switch_sweep)],
+    "C05": [("raw_unit_switch_calls_package_wide", unit_switch_sweep),
+            ("typed_units_managed_reads_package_wide", managed_read_sweep)],
+    "C01": [("undefined_self_attributes_package_wide", attribute_sweep),
+            ("calls_with_wrong_arguments_package_wide", arity_sweep)],
 }
 
 
